@@ -261,6 +261,15 @@ def finding_key(e, binds, kind):
     return f"{kind}/{opname(s)}/{','.join(traits)}/{cat}"
 
 
+def _leaves(c, f):
+    if c[0] == 'l':
+        out = []
+        for x in c[1]:
+            out += _leaves(x, f)
+        return out
+    return [f(c[1])] if c[0] in 'ir' else []
+
+
 def all_int(c):
     if c[0] == 'l':
         return all(all_int(x) for x in c[1])
@@ -291,6 +300,11 @@ def out_of_domain(e, binds):
                 return 'remainder / integer-divide with a non-integer operand'
             if s[1] == '^' and _has(vals[0], lambda n: n == 0) and _has(vals[1], lambda n: n < 0):
                 return 'zero raised to a negative power (pole)'
+            if s[1] == '^':
+                big_base = max(_leaves(vals[0], abs), default=0)
+                big_exp = max(_leaves(vals[1], abs), default=0)
+                if big_base > 1 and big_exp * math.log2(big_base) > 24:
+                    return 'power beyond 2^24 (float32 no longer holds integers exactly; integer tensors wrap)'
     return None
 
 
